@@ -271,7 +271,7 @@ def run_history(sc, tmp, pool):
     mapf = {"builtin": map, "thread": tp.imap, "pool": pool.imap_unordered}
     pipef = {"builtin": map, "thread": tp.map, "pool": pool.map}          # order-preserving for gather
     cur = None
-    first_obj = None
+    objs = {}
     stored = []
     try:
         for k, st in enumerate(sc["steps"]):
@@ -293,12 +293,16 @@ def run_history(sc, tmp, pool):
                 if ties or G.near_tol(groups, o["tol"]):
                     continue
                 wref = G.assemble(n, groups, o["rescale"])
-                if st.get("obj") == "reuse" and first_obj is not None:
-                    clr = first_obj
+                # a Cooler object snapshots the chromosome table when it is opened (api.Cooler._refresh, by design): it is a
+                # handle on THAT cooler. It is reused only while the file still holds the chromosome table it was opened on
+                # (same layout; pixels, weights and other columns may have been rewritten); after the path was given to a
+                # cooler with another chromosome table a new object is opened and becomes the one later steps reuse.
+                lay = tuple(per)
+                if st.get("obj") == "reuse" and lay in objs:
+                    clr = objs[lay]
                 else:
                     clr = cooler.Cooler(str(P))
-                    if first_obj is None:
-                        first_obj = clr
+                    objs.setdefault(lay, clr)
                 kw = {}
                 if st.get("store"):
                     kw = {"store": True, "store_name": st["store"]}
